@@ -576,6 +576,74 @@ func randVersion(r *rand.Rand) string {
 	return s
 }
 
+// newMemEv: NewSlimTrie must not modify the caller's key slice, value slice or option
+// struct (including the booleans its pointers point to).
+func newMemEv(c *TrieCase) Ev {
+	keys := append([]string{}, c.Keys...)
+	vals := c.typedVals()
+	valsCopy := fmt.Sprintf("%#v", vals)
+	// caller-owned booleans, shared the way a caller may share them
+	bools := make([]bool, 4)
+	ptrs := make([]*bool, 4)
+	for i := 0; i < 4; i++ {
+		if c.Opt4[i] != 2 {
+			bools[i] = c.Opt4[i] == 1
+			ptrs[i] = &bools[i]
+		}
+	}
+	opt := trie.Opt{DedupValue: ptrs[0], InnerPrefix: ptrs[1], LeafPrefix: ptrs[2], Complete: ptrs[3]}
+	before := append([]bool{}, bools...)
+	pan := ""
+	func() {
+		defer func() {
+			if r := recover(); r != nil {
+				pan = fmt.Sprint(r)
+			}
+		}()
+		trie.NewSlimTrie(c.encoder(), keys, vals, opt)
+	}()
+	keysSame := len(keys) == len(c.Keys)
+	for i := range keys {
+		if i < len(c.Keys) && keys[i] != c.Keys[i] {
+			keysSame = false
+		}
+	}
+	ptrSame := opt.DedupValue == ptrs[0] && opt.InnerPrefix == ptrs[1] && opt.LeafPrefix == ptrs[2] && opt.Complete == ptrs[3]
+	valSame := true
+	for i := range bools {
+		if bools[i] != before[i] {
+			valSame = false
+		}
+	}
+	return Ev{"ev": "newmem", "opt": c.Opt4[:], "nkeys": len(keys), "enc": c.Enc, "pan": pan,
+		"keys": b2i(keysSame), "vals": b2i(fmt.Sprintf("%#v", vals) == valsCopy), "optptrs": b2i(ptrSame), "optvals": b2i(valSame)}
+}
+
+func genNewMem(t *Tracer, m *Meta, r *rand.Rand) {
+	combos := [][4]int{}
+	for a := 0; a < 3; a++ {
+		for b := 0; b < 3; b++ {
+			for c := 0; c < 3; c++ {
+				for d := 0; d < 3; d++ {
+					combos = append(combos, [4]int{a, b, c, d})
+				}
+			}
+		}
+	}
+	for _, o4 := range combos {
+		for _, keys := range [][]string{{}, {"a"}, genKeys(r, "ascii", 12, 4), genKeys(r, "twosym", 30, 5)} {
+			enc := []string{"i32", "s16", "none", "b4"}[r.Intn(4)]
+			c := &TrieCase{Keys: keys, Enc: enc, Vals: mkVals(r, "C20", enc, len(keys)), Opt4: o4}
+			t.NextCase()
+			m.Cases++
+			t.Emit(Ev{"ev": "case", "enc": enc, "hist": []interface{}{}})
+			t.Emit(newMemEv(c))
+			m.Calls++
+		}
+	}
+	m.class("build-arguments:81-option-pointer-combinations")
+}
+
 func readHistories(path string) [][][]interface{} {
 	f, err := os.Open(path)
 	if err != nil {
@@ -626,6 +694,9 @@ func genHist(t *Tracer, m *Meta, prop, tier string, seed int64, histFile string)
 	}
 	if prop == "C07" {
 		genCuts(t, m, tier, seed, r, pools)
+	}
+	if prop == "C20" {
+		genNewMem(t, m, r)
 	}
 	for i, hs := range hists {
 		v := i % nVar
@@ -768,6 +839,22 @@ func (hr *histReplay) handle(t *Tracer, name string, e map[string]interface{}) b
 			scribble(hr.r, hr.lastIn, pat)
 		}
 		t.Emit(Ev{"ev": "scribble", "target": e["target"], "pattern": pat})
+		return true
+	case "newmem":
+		o := toIntSlice(e["opt"])
+		rr := rand.New(rand.NewSource(3))
+		n := gi("nkeys")
+		keys := []string{}
+		if n > 0 {
+			keys = genKeys(rr, "ascii", n+4, 4)
+			if len(keys) > n {
+				keys = keys[:n]
+			}
+		}
+		enc := e["enc"].(string)
+		c := &TrieCase{Keys: keys, Enc: enc, Vals: mkVals(rr, "C20", enc, len(keys))}
+		copy(c.Opt4[:], o)
+		t.Emit(newMemEv(c))
 		return true
 	case "bat":
 		qs := toStrings(e["qs"])
